@@ -1404,6 +1404,7 @@ func TestC14Registration(t *testing.T) {
 		}
 		ev.Case(len(cfg) >= 2 && r.what != "valid", r.canon(), "registration:"+r.what, fmt.Sprintf("registration-func:%v", r.badFn))
 		checkRegistration(rt, r)
+		checkIncremental(rt, r)
 	})
 }
 
@@ -1489,6 +1490,81 @@ func checkRegistration(t failer, r regCase) {
 			ev.Failf(t, "nil-handler registration refused with an unrelated message %q:\n%s", panicked, desc.String())
 		}
 	}
+}
+
+// checkIncremental: the same options applied one at a time to a mux that
+// exists already (opt(m), the way the handler packages extend a mux): a refused
+// registration leaves the mux as it was - what was registered first for the
+// pattern is still what the lookup finds.
+func checkIncremental(t failer, r regCase) {
+	t.Helper()
+	if r.what != "dup" {
+		return
+	}
+	rec := &recorder{}
+	m := mux.New(stanza.NSClient)
+	owner := -1
+	for i := 0; i <= len(r.cfg); i++ {
+		if i == r.pos {
+			// the duplicate: refused if the pattern is registered already (then
+			// nothing may change), accepted otherwise (then it owns the pattern)
+			p := ev.Guard(func() { option(r.bad, handler{rec: rec, pat: 1000}, r.badFn)(m) })
+			if owner >= 0 && p == "" {
+				ev.Failf(t, "a second registration of %s on an existing mux was accepted (no panic)", r.bad)
+			}
+			if owner < 0 && p == "" {
+				owner = 1000
+			}
+		}
+		if i < len(r.cfg) {
+			p := ev.Guard(func() { option(r.cfg[i], handler{rec: rec, pat: i}, r.fn[i])(m) })
+			if r.cfg[i] == r.bad {
+				if owner >= 0 && p == "" {
+					ev.Failf(t, "a second registration of %s on an existing mux was accepted (no panic)", r.bad)
+				}
+				if owner < 0 && p == "" {
+					owner = i
+				}
+			} else if p != "" {
+				ev.Failf(t, "registering the distinct pattern %s on an existing mux was refused: %s", r.cfg[i], strings.SplitN(p, "\n", 2)[0])
+			}
+		}
+	}
+	// who answers for the pattern now?
+	found := false
+	if p := ev.Guard(func() {
+		switch r.bad.k {
+		case kIQ:
+			if h, ok := m.IQHandler(stanza.IQType(r.bad.typ), r.bad.name); ok {
+				found = true
+				_ = h.HandleIQ(stanza.IQ{}, nil, nil)
+			}
+		case kMsg:
+			if h, ok := m.MessageHandler(stanza.MessageType(r.bad.typ), r.bad.name); ok {
+				found = true
+				_ = h.HandleMessage(stanza.Message{}, nil)
+			}
+		case kPres:
+			if h, ok := m.PresenceHandler(stanza.PresenceType(r.bad.typ), r.bad.name); ok {
+				found = true
+				_ = h.HandlePresence(stanza.Presence{}, nil)
+			}
+		default:
+			if h, ok := m.Handler(r.bad.name); ok {
+				found = true
+				_ = h.HandleXMPP(nil, nil)
+			}
+		}
+	}); p != "" {
+		ev.Failf(t, "looking up %s after the registrations: %s", r.bad, p)
+	}
+	if !found || len(rec.events) != 1 {
+		ev.Failf(t, "after registering %s (and a refused second registration of it) the lookup for exactly that pattern found a handler: %v, invocations recorded: %d", r.bad, found, len(rec.events))
+	}
+	if got := rec.events[0].pat; got != owner {
+		ev.Failf(t, "pattern %s was registered first by option %d; a second registration (option %d) was refused with a panic, yet the lookup now finds the handler of option %d", r.bad, owner, 1000, got)
+	}
+	ev.Class("registration:refused-duplicate-leaves-first-owner")
 }
 
 // registered reports whether the bad pattern is also part of the valid list
